@@ -19,7 +19,7 @@ import os
 import sys
 
 from sim import shapes, refmodel as R
-from sim.core import Rng, SimCrash, close, h64
+from sim.core import Rng, SimCrash, Violation, close, h64
 from sim import disk as simdisk
 
 PROPS = ["C14"]
@@ -662,12 +662,19 @@ def _independent(world, ctx, p, sig):
     if not world.disk.exists(p):
         ctx.fail("acknowledged_file_missing", "export to %s was acknowledged but the file does not exist on disk" % p, reader="independent", **sig)
     raw = world.disk.read_bytes(p)
-    if m["fmt"] == "json":
-        _read_json(ctx, raw, m["snap"], p, sig)
-    elif m["fmt"] in ("smesh", "vmesh"):
-        _read_mesh(ctx, raw, m["snap"][0], p, sig)
-    else:
-        _read_text(ctx, raw, m["snap"][0], p, m["fmt"], m["extra"], sig)
+    try:
+        if m["fmt"] == "json":
+            _read_json(ctx, raw, m["snap"], p, sig)
+        elif m["fmt"] in ("smesh", "vmesh"):
+            _read_mesh(ctx, raw, m["snap"][0], p, sig)
+        else:
+            _read_text(ctx, raw, m["snap"][0], p, m["fmt"], m["extra"], sig)
+    except (Violation, SimCrash):
+        raise
+    except Exception as e:
+        # the independent reader follows the documented layout of the format; a file it cannot walk through does not have it
+        ctx.fail("file_layout", "%s (%s): an independent reader of the documented layout cannot read the acknowledged file: %s: %s" % (
+            p, m["fmt"], type(e).__name__, e), reader="independent", **sig)
     ctx.probe("independent_reader_checks")
 
 
